@@ -14,4 +14,11 @@ func siteName(site int) string {
 	return "explicit"
 }
 
+// locksHeld: cooperative locks (replacing sync.Mutex/RWMutex/Once in the
+// scratch copy) currently held by some task.
+func locksHeld() int { return simhook.Held }
+
+// setLockBlocker installs how a task waits for a cooperative lock.
+func setLockBlocker(f func(cond func() bool)) { simhook.Block = f }
+
 const injected = true
